@@ -417,14 +417,14 @@ func (e *env) gen(avoidKnown bool) []opT {
 				// strings.HasPrefix(trace path, "transfer/channel-N"), so over channel-1 the channel-11 voucher would be taken
 				if ch == 0 {
 					o.Denom = "alias1"
-				} else if ch == 2 {
+				} else { // over channel-1 the channel-11 voucher IS taken (prefix match): accepted, escrowed; over channel-7 refused
 					o.Denom = "alias0"
 				}
 			case 3:
 				o.Amt = 3500 // more than the user holds
 			}
 			ops = append(ops, o)
-			ok := (o.Denom == fmt.Sprintf("alias%d", ch) && o.Amt <= 400) || o.Denom == "fx"
+			ok := ((o.Denom == fmt.Sprintf("alias%d", ch) || (o.Denom == "alias0" && ch == 1)) && o.Amt <= 400) || o.Denom == "fx"
 			if ok { // optimistic bookkeeping; the executor knows the truth
 				f := fl{ch, next[ch], o.Denom != "fx"}
 				next[ch]++
@@ -432,7 +432,7 @@ func (e *env) gen(avoidKnown bool) []opT {
 			}
 		case x < 32:
 			ch := r.Intn(3)
-			d := []string{"fx", fmt.Sprintf("alias%d", ch), fmt.Sprintf("own1%d", ch), "base0", "base1", "base2"}[r.Intn(6)]
+			d := []string{"fx", fmt.Sprintf("alias%d", ch), fmt.Sprintf("own1%d", ch), "base0", "base1", "base2", "alias0"}[r.Intn(7)]
 			if d == "own12" { // no own-voucher pair coin on the third channel
 				d = "alias2"
 			}
@@ -467,6 +467,9 @@ func (e *env) gen(avoidKnown bool) []opT {
 			o.Memo = []string{"none", "none", "text", "bad", "call", "call", "callrevert", "callvalue"}[r.Intn(8)]
 			if r.Chance(5) {
 				o.Amt = 0
+			}
+			if ch == 0 && r.Chance(8) { // the receiver is the derived memo-call sender of (this channel, sender 2) itself
+				o.Receiver, o.Sender = "derived", 2
 			}
 			if strings.HasPrefix(o.Memo, "call") && r.Chance(60) { // a derived sender that has an account
 				if ch == 0 {
@@ -601,8 +604,14 @@ func (e *env) watch() []wkey {
 	}
 	ks = append(ks, wkey{-10, 3, 0}, wkey{-11, 3, 0}, wkey{-12, 3, 0})
 	ks = append(ks, wkey{1700, 3, 0}, wkey{1801, 3, 0}, wkey{60, 3, 0}) // FX of the two derived senders with accounts and of the memo callee
-	for _, t := range []int64{0, 1, 2} { // base coins of the bridged tokens in the channel escrows
+	for _, t := range []int64{0, 1, 2} { // base coins of the bridged tokens, and their vouchers, in the channel escrows
 		ks = append(ks, wkey{-10, 0, t}, wkey{-11, 0, t}, wkey{-12, 0, t})
+		ks = append(ks, wkey{-10, 1, t}, wkey{-11, 1, t}, wkey{-12, 1, t})
+	}
+	// a derived memo-call sender that has NO account at the start and may be a packet's receiver (the bank creates the account on credit)
+	ks = append(ks, wkey{1702, 3, 0})
+	for _, t := range toks {
+		ks = append(ks, wkey{1702, 0, t}, wkey{1702, 2, t})
 	}
 	return ks
 }
@@ -636,6 +645,8 @@ func (e *env) read(ctx sdk.Context, k wkey) *big.Int {
 		who = derived(7, 0).Bytes()
 	case k.h == 1801:
 		who = derived(8, 1).Bytes()
+	case k.h == 1702:
+		who = derived(7, 2).Bytes()
 	case k.h == 60:
 		who = e.cCaller.Bytes()
 	case k.h >= 0:
@@ -663,6 +674,9 @@ func (e *env) read(ctx sdk.Context, k wkey) *big.Int {
 			var res struct{ Value *big.Int }
 			lib.Must(c.App.EvmKeeper.QueryContract(ctx, common.BytesToAddress(authtypes.NewModuleAddress(erc20types.ModuleName)), e.tokByID(k.t).Erc20, contract.GetFIP20().ABI, "totalSupply", &res))
 			return res.Value
+		}
+		if k.h >= 1000 {
+			return tok.BalanceOf(c, ctx, e.tokByID(k.t).Erc20, common.BytesToAddress(who))
 		}
 		return tok.BalanceOf(c, ctx, e.tokByID(k.t).Erc20, e.users[k.h].Hex())
 	default:
@@ -888,10 +902,19 @@ func (e *env) history(ops []opT) string {
 				receiver = common.BytesToAddress(e.blocked).Hex()
 			case "blockedbech32":
 				receiver, isHex = e.blocked.String(), false
+			case "derived": // the address memo calls of (this channel's remote end, this sender) run as
+				receiver = derived(o.Src, o.Sender).Hex()
 			}
 			recvID := int64(o.User)
+			tHex, tAcc := user.Hex(), user.Acc()
 			if strings.HasPrefix(o.Receiver, "blocked") {
 				recvID = 90
+			} else if o.Receiver == "derived" {
+				recvID = 1000 + 100*int64(o.Src) + int64(o.Sender)
+				tHex, tAcc = derived(o.Src, o.Sender), sdk.AccAddress(derived(o.Src, o.Sender).Bytes())
+				if recvID != 1702 {
+					e.rep.Fail(lib.Failure{Kind: "harness", What: "derived receiver other than (7,2) is not watched"})
+				}
 			}
 			memo, coqMemo := "", "NoMemo"
 			switch o.Memo {
